@@ -212,16 +212,37 @@ def rule_watched_where_restart_looks(ctx):
     ctx.check(ok, dl.fq, "every missing ancestor of a requested directory is recorded as a pending watch", "only the requested directory is remembered: when two or more levels are missing, the creation of the upper one is not recognised as the appearance of a pending watch and nothing below it is ever watched", "setdefault inside the climbing loop", where=ctx.where_of(dl))
     cl = ctx.prog.func("watcher.AsyncInotifyWrapper.change_loop")
     ctx.check("self.watches" in ast.unparse(cl.node), cl.fq, "the change loop consults the pending watches", "pending watches are never installed", "consulted")
+    # error discipline: between an inotify event and its handling the file system moves on; a call that can fail for
+    # that reason must not end the loop (the task exception takes the director down, a restart on the same tree is fine)
+    parents = {}
+    for n in ast.walk(cl.node):
+        for c in ast.iter_child_nodes(n):
+            parents[c] = n
+    risky = [c for c in calls_in(cl.node) if callee_name(c) in ("rm_watch", "add_watch", "_install_watch", "iterdir", "listdir", "scandir")]
+    if len(risky) < 3:
+        raise AnalysisError(f"change_loop: only {len(risky)} file-system/inotify calls found (3 confirmed by hand)")
+    for c in risky:
+        guarded = False
+        node = c
+        while node in parents:
+            par = parents[node]
+            if isinstance(par, ast.Try) and node in par.body and any(h.type is None or any(x in ast.unparse(h.type) for x in ("OSError", "Exception", "FileNotFoundError")) for h in par.handlers):
+                guarded = True
+            if isinstance(par, (ast.With, ast.AsyncWith)) and any(isinstance(it.context_expr, ast.Call) and callee_name(it.context_expr) == "suppress" and any("OSError" in ast.unparse(a) or "Exception" in ast.unparse(a) for a in it.context_expr.args) for it in par.items):
+                guarded = True
+            node = par
+        ctx.check(guarded, cl.fq, f"{ast.unparse(c.func)}(...) cannot end the loop with an OSError", "the call is unguarded: a directory that is moved and removed (or created and removed) in quick succession makes it raise EINVAL/ENOENT, the watcher task dies and the director exits, whereas a restart on the same tree builds fine", "try/except OSError or suppress(OSError)", where=ctx.where_of(cl, c))
 
 
 RULES = [
     Rule("R-C14-1", "same reactions on both sides", rule_same_reactions, min_instances=10),
     Rule("R-C14-2", "same relevance filter", rule_same_filter, min_instances=5),
     Rule("R-C14-3", "event folding keeps the sets disjoint", rule_event_folding, min_instances=15),
-    Rule("R-C14-4", "the watcher looks where a restart looks", rule_watched_where_restart_looks, min_instances=3),
+    Rule("R-C14-4", "the watcher looks where a restart looks", rule_watched_where_restart_looks, min_instances=6),
 ]
 
 MUTANTS = [
+    Mutant("rm-watch-unguarded", "watcher.py", in_function("AsyncInotifyWrapper.change_loop", replace_once("                        with contextlib.suppress(OSError):\n                            self.inotify.rm_watch(watch)\n", "                        self.inotify.rm_watch(watch)\n")), ("R-C14-4",)),
     Mutant("draining-reset-after-watcher", "director.py", in_function("DirectorHandler.start_build_phase", lambda s: s.replace("        self.scheduler.draining = False\n", "", 1).replace("        self.builder.resume.set()\n", "        self.scheduler.draining = False\n        self.builder.resume.set()\n", 1) if "        self.scheduler.draining = False\n" in s else None), ("R-C14-1",)),
     Mutant("rebuild-retries-attached-only", "director.py", in_function("DirectorHandler.start_build_phase", replace_once("self.workflow.steps(StepState.FAILED, include_detached=True)", "self.workflow.steps(StepState.FAILED)")), ("R-C14-1",)),
     Mutant("resume-watches-static-only", "startup.py", in_function("watch_known_dirs", replace_once('f"file.state != {FileState.VOLATILE.value}"', 'f"file.state IN ({FileState.UNCONFIRMED.value}, {FileState.CONFIRMED.value}, {FileState.MISSING.value})"')), ("R-C14-4",)),
